@@ -86,7 +86,8 @@ Definition agree (v : jvariant) (c : tcase) : bool :=
 (** executable spec on the observation *)
 Definition spec_cfg (c : tcase) : bool :=
   negb (ob_accepted c)
-  || (Z.eqb (ob_live c) 0 && negb (Z.eqb (ob_result c) 3) && negb (Z.eqb (ob_stored c) 3) && ob_ticket c).
+  || (Z.eqb (ob_live c) 0 && negb (Z.eqb (ob_result c) 3) && negb (Z.eqb (ob_stored c) 3) && ob_ticket c
+      && (negb (must_kill (t_c c)) || Z.eqb (ob_result c) 2)).   (* killed => recorded as killed, nothing overwrites it *)
 
 (** no two overlapping runs of one id; never more runs of a kind than its pool *)
 Fixpoint spec_log (capF capI : Z) (active : list (Z * bool)) (log : list rop) : bool :=
